@@ -19,6 +19,7 @@ type recCache struct {
 	gets    int
 	hits    int
 	puts    int
+	keys    []uint64 // every key passed to Put, in order
 }
 
 func newRecCache(inner updog.Cache) *recCache {
@@ -73,6 +74,7 @@ func (c *recCache) Get(key uint64) (*roaring.Bitmap, bool) {
 func (c *recCache) Put(key uint64, bm *roaring.Bitmap) {
 	c.mu.Lock()
 	c.puts++
+	c.keys = append(c.keys, key)
 	c.mu.Unlock()
 	c.look(bm)
 	if c.inner != nil {
